@@ -19,6 +19,15 @@
 #include <type_traits>
 #include <initializer_list>
 
+#ifdef SBEPP_VERIF
+// verification hook (off by default): keeps every primitive read/write visible
+// to the IR-level checker even when the optimiser drops the value
+extern "C" void sbepp_verif_touch(const void*, std::size_t) noexcept;
+#    define SBEPP_VERIF_TOUCH(ptr, size) ::sbepp_verif_touch((ptr), (size))
+#else
+#    define SBEPP_VERIF_TOUCH(ptr, size) ((void)0)
+#endif
+
 // Clang generates tons of warnings about code like `return {N};` where `N` is
 // calculated during generation or just a value from schema. Using braced
 // initialization syntax provides additional safety in such cases.
@@ -550,6 +559,7 @@ enable_if_t<std::is_floating_point<T>::value, T> byteswap(T value) noexcept
 template<typename T, endian E, typename Byte>
 SBEPP_CPP20_CONSTEXPR T get_primitive(const Byte* ptr)
 {
+    SBEPP_VERIF_TOUCH(ptr, sizeof(T));
 #if SBEPP_HAS_BITCAST
     std::array<Byte, sizeof(T)> arr;
     if(E == endian::native)
@@ -580,6 +590,7 @@ SBEPP_CPP20_CONSTEXPR T get_primitive(const Byte* ptr)
 template<endian E, typename T, typename Byte>
 SBEPP_CPP20_CONSTEXPR void set_primitive(Byte* ptr, T value)
 {
+    SBEPP_VERIF_TOUCH(ptr, sizeof(T));
 #if SBEPP_HAS_BITCAST
     auto arr = std::bit_cast<std::array<Byte, sizeof(T)>>(value);
     if(E == endian::native)
